@@ -49,6 +49,8 @@ ANCHORS = [
     (SRC + "lowlevel/api_async/servers/datagram.py", "AsyncDatagramServer.__on_client_coroutine_task_done"),
     (SRC + "lowlevel/api_async/backend/_asyncio/stream/listener.py", "ListenerSocketAdapter.serve"),
     (SRC + "lowlevel/api_async/transports/tls.py", "AsyncTLSListener.serve"),
+    (SRC + "lowlevel/api_async/backend/_asyncio/stream/socket.py", "AsyncioTransportStreamSocketAdapter.aclose"),
+    (SRC + "lowlevel/api_async/transports/utils.py", "aclose_forcefully"),
     (SRC + "exceptions.py", "ClientClosedError"),
 ]
 RULE = ("every exception kind (7 naked leaves: ValueError, OSError, ConnectionResetError, ClientClosedError, "
@@ -117,6 +119,21 @@ def make_leaf(code, udp=False):
     raise ValueError(code)
 
 
+CLOSE_ERRNOS = ["EIO", "ENOTCONN", "EBADF", "EPIPE", "ECONNRESET", "ETIMEDOUT"]
+
+
+def make_close_error(leaf, errno_idx):
+    """what socket.shutdown() may raise at the final close: OSError(errno) is mapped by Python to its subclass
+    (EPIPE -> BrokenPipeError, ECONNRESET -> ConnectionResetError, ETIMEDOUT -> TimeoutError; ENOTCONN / EBADF / EIO stay
+    plain OSError); leaf 0 = a non-OSError (ValueError), outside the statement"""
+    import errno
+    if leaf == 0:
+        return ValueError("injected at write_eof")
+    if leaf == 6:
+        return FatalBase("injected at write_eof")
+    return OSError(getattr(errno, CLOSE_ERRNOS[errno_idx]), "injected at write_eof")
+
+
 def make_exc(spec, udp=False, nested=False):
     """spec = [0, leaf] | [1, [leaves...]]"""
     if not spec:
@@ -173,6 +190,8 @@ class _Classes:
         self.add_obj("BaseException", BaseException)
         self.add_obj("Exception", Exception)
         self.add_obj("asyncio.CancelledError", asyncio.CancelledError)
+        self.add_obj("OSError", OSError)
+        self.env = {}
 
     def add_obj(self, name, obj):
         if name in self.names:
@@ -192,6 +211,8 @@ class _Classes:
             for e in expr.elts:
                 out.extend(self.resolve(e, module))
             return out
+        if isinstance(expr, ast.Name) and expr.id in self.env and expr.id not in vars(module):
+            return self.resolve(self.env[expr.id], module)      # a local bound to a class / tuple of classes just above
         if isinstance(expr, ast.Name):
             ns = vars(module)
             if expr.id in ns:
@@ -598,6 +619,30 @@ def _tr_tls(tree, classes):
     if len(t.orelse) != 1 or ast.unparse(t.orelse[0]) != "await handler(stream)":
         raise TranslateError(f"{where}: else branch is not `await handler(stream)`")
     node = ast.Try(body=t.body, handlers=t.handlers, orelse=[], finalbody=t.finalbody)
+    # names bound in the enclosing serve() to a class or a tuple of classes (e.g. handshake_errors = (A, B))
+    serve = _find(tree, "AsyncTLSListener", "serve")
+    classes.env = {st.targets[0].id: st.value for st in serve.body
+                   if isinstance(st, ast.Assign) and len(st.targets) == 1 and isinstance(st.targets[0], ast.Name)
+                   and isinstance(st.value, (ast.Tuple, ast.Name, ast.Attribute))}
+    try:
+        return _layer(node, classes, mod, where)
+    finally:
+        classes.env = {}
+
+
+def _tr_adapter_close(tree, classes):
+    """AsyncioTransportStreamSocketAdapter.aclose: the try around transport.write_eof() (the socket shutdown of the final,
+    forced close of a client task: what it raises there is outside every per-client filter)"""
+    mod = importlib.import_module("easynetwork.lowlevel.api_async.backend._asyncio.stream.socket")
+    fn = _find(tree, "AsyncioTransportStreamSocketAdapter", "aclose")
+    where = "socket.AsyncioTransportStreamSocketAdapter.aclose"
+    tries = [n for n in ast.walk(fn) if isinstance(n, ast.Try) and "write_eof()" in ast.unparse(ast.Module(body=n.body, type_ignores=[]))]
+    if len(tries) != 1:
+        raise TranslateError(f"{where}: expected exactly one try statement around write_eof(), found {len(tries)}")
+    t = tries[0]
+    if not (len(t.finalbody) == 1 and ast.unparse(t.finalbody[0]).endswith(".close()")) or t.orelse:
+        raise TranslateError(f"{where}: the transport is not closed in the finally clause of that try")
+    node = ast.Try(body=t.body, handlers=t.handlers, orelse=[], finalbody=[])
     return _layer(node, classes, mod, where)
 
 
@@ -1192,6 +1237,7 @@ def _params():
     recv_protected = _tr_receivers(_src(SRC + "lowlevel/api_async/servers/stream.py"))
     listener = _tr_listener(_src(SRC + "lowlevel/api_async/backend/_asyncio/stream/listener.py"), classes)
     tls = _tr_tls(_src(SRC + "lowlevel/api_async/transports/tls.py"), classes)
+    adapter_close = _tr_adapter_close(_src(SRC + "lowlevel/api_async/backend/_asyncio/stream/socket.py"), classes)
     try:
         udp = _tr_udp_aexit(_src(SRC + "servers/async_udp.py"), classes)
     except TranslateError as exc:
@@ -1228,6 +1274,7 @@ def _params():
         "Definition C_BaseException : cls := 0%nat.",
         "Definition C_Exception : cls := 1%nat.",
         "Definition C_Cancelled : cls := 2%nat.",
+        "Definition C_OSError : cls := 3%nat.",
         "Definition isinst (k : leaf) (c : cls) : bool :=\n  match k, c with\n" + "\n".join(rows).replace(" => true", "%nat => true")
         + "\n  | _, _ => false\n  end.",
         "Definition isinst_eg (c : cls) : bool := (" + table(eg) + ")%nat.",
@@ -1245,6 +1292,7 @@ def _params():
         f"Definition receiver_next_protected : bool := {_b(recv_protected)}.",
         "Definition listener_connect : list layer :=\n  [" + listener + "].",
         "Definition tls_wrap : list layer :=\n  [" + tls + "].",
+        "Definition adapter_close : list layer :=\n  [" + adapter_close + "].",
         "Definition udp_aexit : list mcase :=\n  " + udp + ".",
         f"Definition udp_done_in_finally : bool := {_b(in_finally)}.",
         f"Definition udp_done_marks_first : bool := {_b(marks_first)}.",
@@ -1410,17 +1458,20 @@ def _datagram_handler(world):
                 return
             s.gens += 1
             s.hooks.append(2)
-            if s.gens >= 2:
+            if s.gens >= (5 if s.pos == 7 else 4 if s.pos in (5, 6) else 2):
                 req = yield
                 s.hooks.append(3)
                 await client.send_packet("re:" + req)
                 return
-            if s.pos == 0:
+            if s.pos in (0, 5):
                 raise s.exc1()
             req = yield
             s.hooks.append(3)
-            if s.pos == 1:
+            if s.pos == 7 and s.gens == 1:
+                await asyncio.sleep(0.3)           # the next datagrams of this address are queued meanwhile
                 raise s.exc1()
+            if s.pos in (1, 6, 7):
+                raise s.exc1()                     # without awaiting anything
             await client.send_packet("re:" + req)
             if s.pos >= 20:
                 try:
@@ -1470,6 +1521,8 @@ class World:
         self.f_port = None
         self.loop = detloop.DetLoop()
         self.loop.set_exception_handler(lambda loop, ctx: None)
+        if srv == 4:
+            self.loop.set_task_factory(asyncio.eager_task_factory)      # world dimension: eager tasks (UDP server)
         self.name = f"c17.world{next(_world_seq)}"
         self.logger = logging.getLogger(self.name)
         self.logger.handlers[:] = [_Collector(self.logs)]
@@ -1530,10 +1583,21 @@ class World:
 
         _s.ConnectedStreamClient.aclose = aclose
 
+        import asyncio.selector_events as _se
+        orig_write_eof = _se._SelectorSocketTransport.write_eof
+
+        def write_eof(self):
+            w = World.current
+            if w is not None and "write_eof" in w.inject:
+                raise w.inject.pop("write_eof")
+            return orig_write_eof(self)
+
+        _se._SelectorSocketTransport.write_eof = write_eof
+
     async def _start(self):
         from easynetwork.protocol import DatagramProtocol, StreamProtocol
         from easynetwork.serializers.line import StringLineSerializer
-        if self.srv == 2:
+        if self.srv in (2, 4):
             from easynetwork.servers.async_udp import AsyncUDPNetworkServer
             self.server = AsyncUDPNetworkServer("127.0.0.1", 0, DatagramProtocol(StringLineSerializer()),
                                                 _datagram_handler(self), logger=self.logger)
@@ -1566,7 +1630,7 @@ class World:
 
     # -- clients
     async def _connect(self, tls=None):
-        if self.srv == 2:
+        if self.srv in (2, 4):
             s = socket.socket(socket.AF_INET, socket.SOCK_DGRAM)
             s.setblocking(False)
             s.bind(("127.0.0.1", 0))
@@ -1577,7 +1641,7 @@ class World:
         return await asyncio.wait_for(asyncio.open_connection(*self.addr), 5)
 
     async def _send(self, c, line: bytes):
-        if self.srv == 2:
+        if self.srv in (2, 4):
             c.sendto(line, self.addr)
         else:
             c[1].write(line + b"\n")
@@ -1585,7 +1649,7 @@ class World:
     async def _recv(self, c, _again=False):
         """One reply line / datagram, b'' for EOF or reset, None for nothing within REPLY_TIMEOUT (virtual)."""
         try:
-            if self.srv == 2:
+            if self.srv in (2, 4):
                 data = await asyncio.wait_for(self.loop.sock_recv(c, 4096), REPLY_TIMEOUT)
                 return data
             return await asyncio.wait_for(c[0].readline(), REPLY_TIMEOUT)
@@ -1595,7 +1659,7 @@ class World:
             # The virtual clock only advances when no socket is readable, and loopback delivery is synchronous with the
             # sender unless the kernel defers it (ksoftirqd under heavy network load).  A missing reply is therefore
             # re-checked once after a REAL wait on the client's socket; this path is only taken for negative outcomes.
-            sock = c if self.srv == 2 else c[1].get_extra_info("socket")
+            sock = c if self.srv in (2, 4) else c[1].get_extra_info("socket")
             with contextlib.suppress(Exception):
                 import select as _select
                 _select.select([sock], [], [], REAL_GRACE)
@@ -1610,7 +1674,7 @@ class World:
 
     def _close_client(self, c):
         with contextlib.suppress(Exception):
-            if self.srv == 2:
+            if self.srv in (2, 4):
                 c.close()
             else:
                 c[1].close()
@@ -1632,10 +1696,10 @@ class World:
         self.cases += 1
         srv, scen = inp[0], inp[1]
         s = self.script = _Script()
-        s.udp = srv == 2
+        s.udp = srv in (2, 4)
         del self.logs[:]
         self.inject.clear()
-        if srv != 2:
+        if srv not in (2, 4):
             self.handler.faulty = None
         flag = 0
         f = None
@@ -1644,7 +1708,7 @@ class World:
                 s.active, s.pos, s.e1, s.e2 = True, inp[2], inp[3], (inp[4][0] if inp[4] else None)
                 s.nested = bool(inp[5]) if len(inp) > 5 else False
                 f = await self._connect()
-                if srv == 2:
+                if srv in (2, 4):
                     self.f_port = f.getsockname()[1]
                     flag = await self._udp_script(f, s.pos)
                 else:
@@ -1653,6 +1717,14 @@ class World:
                 s.active = True          # a connection that reaches on_connection would be recorded (it must not)
                 stage, exc, real = inp[2], inp[3], (inp[4] if len(inp) > 4 else 0)
                 flag = await self._setup_fault(stage, exc, real)
+            elif scen == 3:
+                # the handler fails after a request (peer still connected) and the socket shutdown of the final forced
+                # close raises: inp = [srv, 3, leaf, exc1, errno index]
+                s.active, s.pos, s.e1, s.e2 = True, 4, inp[3], None
+                self.inject["write_eof"] = make_close_error(inp[2], inp[4] if len(inp) > 4 else 0)
+                f = await self._connect()
+                flag = await self._tcp_script(f, 4)
+                self.inject.pop("write_eof", None)
             elif scen == 2:
                 s.active, s.pos = True, -1
                 self.inject["aclose"] = inp[2]
@@ -1724,6 +1796,11 @@ class World:
 
     async def _udp_script(self, f, pos):
         await self._send(f, b"x")
+        if pos in (5, 6, 7):
+            await self._send(f, b"y")              # a burst: more datagrams of the same address right behind the first one
+            await self._send(f, b"w")
+            if pos == 7:
+                await self._send(f, b"v")
         if pos >= 20:
             await self._recv(f)
             if pos - 20 in DELAY_WAITS:
@@ -1818,9 +1895,9 @@ def run_impl(inp):
 DELAYS = [None, 0, 0.5, -1, float('inf'), float('nan'), 'abc', 10 ** 400]      # codes 0..7: positions 20 + code
 DELAY_WAITS = {0, 4}             # delays with which the receiver simply waits for the next request
 TCP_POSITIONS = list(range(12)) + [20 + d for d in range(8)]
-UDP_POSITIONS = list(range(5)) + [20 + d for d in range(8)]
+UDP_POSITIONS = list(range(8)) + [20 + d for d in range(8)]
 HARD_TCP_POS = {5, 6, 7, 8, 9, 10, 11} | {20 + d for d in range(8)}
-HARD_UDP_POS = {2, 3, 4} | {20 + d for d in range(8)}
+HARD_UDP_POS = {2, 3, 4, 5, 6, 7} | {20 + d for d in range(8)}
 
 
 def _naked():
@@ -1846,7 +1923,7 @@ def _has_fatal(spec):
 
 
 def _tags(srv, scen, pos, e1, e2, nested, extra=()):
-    t = [("tcp", "tls", "udp", "tls-nsc")[srv], f"scen{scen}"]
+    t = [("tcp", "tls", "udp", "tls-nsc", "udp-eager")[srv], f"scen{scen}"]
     if scen == 0:
         t.append(f"pos{pos}")
     if e1:
@@ -1861,7 +1938,7 @@ def _tags(srv, scen, pos, e1, e2, nested, extra=()):
 
 
 def _case(srv, pos, e1, e2=None, nested=0):
-    hard = (pos in (HARD_UDP_POS if srv == 2 else HARD_TCP_POS)) or e1[0] == 1 or bool(e2)
+    hard = (pos in (HARD_UDP_POS if srv in (2, 4) else HARD_TCP_POS)) or e1[0] == 1 or bool(e2)
     return dict(input=[srv, 0, pos, e1, [e2] if e2 else [], nested], tags=_tags(srv, 0, pos, e1, e2, nested), nontrivial=hard)
 
 
@@ -1875,9 +1952,16 @@ def cases(tier, rng, escalate):
         for pos in TCP_POSITIONS:
             for e1 in (excs if thorough or pos < 20 else few):
                 yield _case(srv, pos, e1)
-    for pos in UDP_POSITIONS:
-        for e1 in (excs if thorough or pos < 20 else few):
-            yield _case(2, pos, e1)
+    for usrv in (2, 4):                                  # 4 = the same UDP server under asyncio.eager_task_factory
+        for pos in UDP_POSITIONS:
+            for e1 in (excs if thorough or (pos < 20 and usrv == 2) or pos in (5, 6, 7) else few):
+                yield _case(usrv, pos, e1)
+    # the socket shutdown of the final forced close raises (every OSError flavour, by errno) after a handler fault
+    for srv in (0, 3):
+        for leaf, idx in [(1, 0), (1, 1), (1, 2), (2, 3), (2, 4), (4, 5), (0, 0), (6, 0)]:
+            for e1 in few:
+                yield dict(input=[srv, 3, leaf, e1, idx], tags=_tags(srv, 3, 0, e1, None, 0, ["final-close", f"errno-{CLOSE_ERRNOS[idx]}"]),
+                           nontrivial=True)
     # 2. a second fault raised by on_disconnection
     firsts = _naked() + [[1, [3, 0]], [1, [2]]] if thorough else [[0, 0], [0, 2], [0, 3], [0, 6], [1, [3, 0]]]
     seconds = excs if thorough else _naked() + [[1, [2]], [1, [3, 0]], [1, [2, 3]], [1, [0, 6]], [1, [4, 5, 1]]]
@@ -1917,10 +2001,10 @@ def cases(tier, rng, escalate):
         return [1, [rng.choice(leaves) for _ in range(rng.randint(1, 5))]]
 
     for _ in range(n):
-        srv = rng.choice((0, 0, 1, 2, 3))
+        srv = rng.choice((0, 0, 1, 2, 3, 4))
         e1 = rnd_exc(True)
-        if srv == 2:
-            c = _case(2, rng.choice(UDP_POSITIONS), e1, None, rng.randint(0, 1))
+        if srv in (2, 4):
+            c = _case(srv, rng.choice(UDP_POSITIONS), e1, None, rng.randint(0, 1))
         else:
             pos = rng.choice(TCP_POSITIONS)
             e2 = rnd_exc(True) if pos not in (0, 1, 2, 9) and rng.random() < 0.5 else None
@@ -1938,19 +2022,23 @@ def oracle(inp):
         specs = [inp[3]] + list(inp[4])
     elif scen == 1:
         specs = [inp[3]]
+    elif scen == 3:
+        if inp[2] in (0, 6):
+            return None                  # not an OSError at the socket shutdown: outside the statement
+        specs = [inp[3]]
     else:
         specs = [inp[2]]
     if any(_has_fatal(s) for s in specs):
         return None                      # BaseException-only kinds are outside the statement
     out = run_impl(inp)
     alive_a, alive_b, crashed, flag, hooks, _logs = out
-    who = ("TCP", "TLS", "UDP", "TLS-nsc")[srv]
+    who = ("TCP", "TLS", "UDP", "TLS-nsc", "UDP-eager")[srv]
     what = f"{who} scen={scen} " + (f"pos={inp[2]} " if scen == 0 else "") + f"fault={specs}"
     if crashed:
         return f"server stopped serving: the client task let an exception escape ({what})"
     if not (alive_a and alive_b):
         return f"healthy client no longer answered ({what})"
-    if srv == 2:
+    if srv in (2, 4):
         if not flag:
             return f"later datagram of the failing UDP client was not handled by a fresh handler ({what})"
         return None
